@@ -150,16 +150,25 @@ def g_net(r, deterministic=False, small=False, poisson_ok=True):
     N["baulk"] = None
     if not deterministic and r.random() < 0.15:
         N["baulk"] = {c: [[0.0, 0.5, 1.0] if r.random() < 0.6 else None for _ in range(n)] for c in classes}
-    N["tracker"] = r.choice([None, "SystemPopulation", "NodePopulation", "NodeClassMatrix", "NaiveBlocking", "MatrixBlocking"])
+    N["tracker"] = r.choice([None, "SystemPopulation", "NodePopulation", "NodeClassMatrix", "NaiveBlocking", "MatrixBlocking",
+                             "NodePopulationSubset", "GroupedNodePopulation", "GroupedNodePopulation"])
+    N["tracker_args"] = None
+    if N["tracker"] == "NodePopulationSubset":
+        N["tracker_args"] = [sorted(r.sample(range(n), r.randint(1, n)))]
+    elif N["tracker"] == "GroupedNodePopulation":
+        idx = list(range(n))
+        r.shuffle(idx)
+        cut = r.randint(0, n)
+        N["tracker_args"] = [[g for g in (idx[:cut], idx[cut:]) if g]]
     return N
 
 
 def gen_c15(r, tier):
-    mode = r.choice(["repeat", "repeat", "reuse", "isolation"])
+    mode = r.choice(["repeat", "repeat", "reuse", "reuse_same", "isolation"])
     det = mode == "isolation"
     # PoissonIntervals draws its dates when it is constructed, so a re-used Network cannot consume the random
     # stream the way a fresh build does: out of domain for the re-use mode (narrowing, see DESIGN)
-    S = {"kind": "c15", "mode": mode, "seed": r.randint(0, 10 ** 6), "main": g_net(r, deterministic=det, poisson_ok=(mode == "repeat")),
+    S = {"kind": "c15", "mode": mode, "seed": r.randint(0, 10 ** 6), "main": g_net(r, deterministic=det, poisson_ok=(mode in ("repeat", "reuse_same"))),
          "T": float(r.choice([8, 15, 25])), "exact": r.choice([None, None, None, 12, 20]) if mode != "isolation" else None}
     pre = []
     for _ in range(r.randint(0, 3)):
@@ -286,7 +295,7 @@ def mk_sim(net, N, exact=None, tracker=None):
     if tracker is not None:
         kw["tracker"] = tracker           # the caller hands the same tracker object to several simulations
     elif N.get("tracker"):
-        kw["tracker"] = getattr(ciw.trackers, N["tracker"])()
+        kw["tracker"] = getattr(ciw.trackers, N["tracker"])(*[list(a) if not (a and isinstance(a[0], list)) else [list(g) for g in a] for a in (N.get("tracker_args") or [])])
     if exact:
         kw["exact"] = exact
     return ciw.Simulation(net, **kw)
@@ -334,9 +343,19 @@ def main_run(S, net=None, tracker=None):
     return digest_of(Q), net
 
 
+def first_run(S, tracker=None):
+    """the run under test, the way the plan's mode builds it (also what the fresh interpreter executes)"""
+    if S["mode"] == "reuse_same":
+        # one Network object built once; every simulation on it after seed(s) must give the same results
+        ciw.seed(S["seed"] + 17)
+        net = build_net(S["main"])
+        return main_run(S, net=net, tracker=tracker)
+    return main_run(S, tracker=tracker)
+
+
 def fresh_interpreter_digest(S):
     code = ("import sys, json; sys.path.insert(0, %r); from cisim import c15; S = json.loads(sys.stdin.read()); "
-            "print('DIGEST', c15.main_run(S)[0][0])") % os.path.dirname(os.path.dirname(os.path.abspath(__file__)))
+            "print('DIGEST', c15.first_run(S)[0][0])") % os.path.dirname(os.path.dirname(os.path.abspath(__file__)))
     env = dict(os.environ)
     env["PYTHONHASHSEED"] = str(1 + S["seed"] % 1000)
     out = subprocess.run([sys.executable, "-B", "-c", code], input=json.dumps(S), capture_output=True, text=True, env=env, timeout=120)
@@ -367,9 +386,9 @@ def run_c15(S, oracles=None, wall=60):
         st0 = _random.getstate()
         shared_tracker = None
         if S.get("reuse_tracker") and S["main"].get("tracker") and mode != "isolation":
-            shared_tracker = getattr(ciw.trackers, S["main"]["tracker"])()
+            shared_tracker = getattr(ciw.trackers, S["main"]["tracker"])(*[list(a) if not (a and isinstance(a[0], list)) else [list(g) for g in a] for a in (S["main"].get("tracker_args") or [])])
             counts["F9:tracker_object_reused"] += 1
-        (dA, nA), netA = main_run(S, tracker=shared_tracker)
+        (dA, nA), netA = first_run(S, tracker=shared_tracker)
         if mode == "isolation" and _random.getstate() != st0:
             # the solo run consumed the global random stream (a tie was broken at random): interleaved
             # simulations legitimately share that stream, so the comparison is out of domain
@@ -378,11 +397,11 @@ def run_c15(S, oracles=None, wall=60):
             res["digest"] = dA
             return res
         for item in S["between"]:
-            counts["F9:between:" + run_item(item, netA if mode == "reuse" else net_for_same, S["main"])] += 1
+            counts["F9:between:" + run_item(item, netA if mode in ("reuse", "reuse_same") else net_for_same, S["main"])] += 1
         if mode == "repeat":
             (dB, nB), _ = main_run(S, tracker=shared_tracker)
             what = "second run after seed(s) on a freshly built network"
-        elif mode == "reuse":
+        elif mode in ("reuse", "reuse_same"):
             (dB, nB), _ = main_run(S, net=netA, tracker=shared_tracker)
             what = "second run after seed(s) re-using the first run's Network object"
         else:
